@@ -24,10 +24,14 @@ REQUIRED_PROBES = {"quick": ("early_select", "data_not_selected", "data_selected
 EVIDENCE = {
     "level": "exploration",
     "rule": ("seeded histories over {connect (also with a Select.req already in flight), peer close, local "
-             "disable/enable, Select/Deselect/Linktest/Separate/Reject control frames, data frames with/without W and "
-             "with fresh or transaction-matching system bytes, local select/deselect/linktest/data requests}, issued "
-             "one at a time or in bursts, active and passive; non-trivial = history contains at least one state-changing "
-             "event after the first select; distinct = distinct (mode, op-kind sequence, scheduler) tuples"),
+             "disable/enable, Select/Deselect/Linktest/Separate/Reject control frames, data frames with/without W "
+             "and with fresh or transaction-matching system bytes, local select/deselect/linktest/data requests}, "
+             "issued one at a time or in bursts (frames 0-40 ms apart), active and passive, connections that end "
+             "inside a frame, peers that restart their system bytes on every connection, threads descheduled just "
+             "before a synchronisation call; after every operation a quiet healthy link must have every request "
+             "answered and every deliverable message delivered within 2 virtual s; non-trivial = history contains "
+             "at least one state-changing event after the first select; distinct = distinct (mode, op-kind "
+             "sequence, scheduler) tuples"),
     "real": ["secsgem.hsms.HsmsProtocol", "secsgem.hsms.ConnectionStateMachine", "secsgem.common.StateMachine",
              "secsgem.common.ProtocolDispatcher", "secsgem.common.Tcp*Connection"],
     "stub": ["socket/select (SimSocket)", "threading/queue/time facades", "peer (reference E37 codec)"],
